@@ -20,6 +20,7 @@ after isinstance(payload, PackedSwitch|SparseSwitch) holds on the path.
 from __future__ import annotations
 
 from ..model import ANALYSIS, DEX
+from ..offset_model import rule_offset_functions, rule_payload_model
 from ..xref_engine import (Engine, XrefModel, Collector, Mut, rule_fact_offsets, rule_accumulators, rule_payload, rule_basic_block_offsets,
                            run_mutants, m_swap_args, m_set_arg, m_set_receiver, m_rename_call, m_delete_call, m_const, m_replace_src, b_rename_local)
 
@@ -31,8 +32,9 @@ def core(sink, eng):
     xm = XrefModel(eng)
     sink.analysed(xm.root)
     rule_fact_offsets(sink, xm)
-    rule_accumulators(sink, eng)
-    rule_payload(sink, eng)
+    # disassembler side: executed abstractly on a model (values are judged, not loop shapes)
+    rule_offset_functions(sink, eng.repo)
+    rule_payload_model(sink, eng.repo)
     rule_basic_block_offsets(sink, eng)
 
 
